@@ -323,7 +323,7 @@ Matrix::Matrix(unsigned int dim_rows, unsigned int dim_columns, double entry)
 }
 
 Matrix::Matrix(std::vector<std::vector<double>> entries)
-: components(entries), rows(entries.size()), columns(entries[0].size())
+: components(entries), rows(entries.size()), columns(entries.empty() ? 0 : entries[0].size())
 {
 	for(unsigned int i = 0; i < rows; i++)
 	{
@@ -847,7 +847,7 @@ std::vector<Vector> Matrix::Eigen_Vectors() const
 // Overloading brackets
 std::vector<double>& Matrix::operator[](const unsigned int i)
 {
-	if(i < 0 || i > (rows - 1))
+	if(i < 0 || i >= rows)
 	{
 		std::cerr << "Error in libphysica::Matrix::operator[](): Index i=" << i << " is out of bound [" << 0 << "," << (rows - 1) << "]." << std::endl;
 		std::exit(EXIT_FAILURE);
@@ -857,7 +857,7 @@ std::vector<double>& Matrix::operator[](const unsigned int i)
 }
 const std::vector<double>& Matrix::operator[](const unsigned int i) const
 {
-	if(i < 0 || i > (rows - 1))
+	if(i < 0 || i >= rows)
 	{
 		std::cerr << "Error in libphysica::Matrix::operator[](): Index i=" << i << " is out of bound [" << 0 << "," << (rows - 1) << "]." << std::endl;
 		std::exit(EXIT_FAILURE);
